@@ -250,8 +250,8 @@ impl Check for C07 {
     }
     fn count(&self, tier: Tier) -> u64 {
         match tier {
-            Tier::Quick => 40_000,
-            Tier::Thorough => 2_000_000,
+            Tier::Quick => 200_000,
+            Tier::Thorough => 6_000_000,
         }
     }
     fn generate(&self, rng: &mut Rng, _index: u64, _tier: Tier) -> ConnScenario {
